@@ -32,6 +32,7 @@ Measurements (none of them uses the limit bookkeeping of the library):
 
 from __future__ import annotations
 
+import re
 import sys
 from collections.abc import Mapping
 from io import StringIO
@@ -691,7 +692,23 @@ def _analysis_view(prog: dict[str, Any]) -> dict[str, Any]:
 VARIANTS = ("include", "render", "macro-render", "extends", "mixed")
 
 
-def graph_templates(n: int, edges: list[list[int]], variant: str) -> dict[str, str]:
+def graph_templates(n: int, edges: list[list[int]], variant: str, wrap: int = 0) -> dict[str, str]:
+    """`wrap`: every edge sits inside that many nested block tags (each recursion level then costs
+    many Python frames, so the interpreter's stack is the competing bound)."""
+    out = _graph_templates(n, edges, variant)
+    if wrap:
+        tags = [("{% if true %}", "{% endif %}"), ("{% for q in (1..1) %}", "{% endfor %}"),
+                ("{% unless false %}", "{% endunless %}"), ("{% case 1 %}{% when 1 %}", "{% endcase %}")]
+        opening = "".join(tags[k % len(tags)][0] for k in range(wrap))
+        closing = "".join(tags[k % len(tags)][1] for k in reversed(range(wrap)))
+        for name, src in out.items():
+            for tag in ("include", "render"):
+                src = re.sub(r"(\{% " + tag + r" 't\d+' %\})", lambda m: opening + m.group(1) + closing, src)
+            out[name] = src
+    return out
+
+
+def _graph_templates(n: int, edges: list[list[int]], variant: str) -> dict[str, str]:
     out: dict[str, str] = {}
     for i in range(n):
         succ = [j for a, j in edges if a == i]
@@ -767,7 +784,7 @@ def graph_case(draw: Any) -> dict[str, Any]:
     pairs = [(i, j) for i in range(n) for j in range(n)]
     edges = [list(p) for p in pairs if draw(st.integers(0, 3)) == 0]
     return {"kind": "graph", "n": n, "edges": edges, "variant": draw(st.sampled_from(VARIANTS)),
-            "start": draw(st.integers(0, n - 1))}
+            "start": draw(st.integers(0, n - 1)), "wrap": draw(st.sampled_from([0, 0, 0, 2, 5, 8, 12]))}
 
 
 # --------------------------------------------------------------------------- the property
@@ -841,6 +858,9 @@ class C06(Prop):
                 for variant in VARIANTS:
                     for start in range(n):
                         yield {"kind": "graph", "n": n, "edges": edges, "variant": variant, "start": start}
+                        if n <= 2 and edges:
+                            yield {"kind": "graph", "n": n, "edges": edges, "variant": variant, "start": start,
+                                   "wrap": 7 + len(edges)}
 
     def enumerated_is_exhaustive(self, tier: str) -> bool:
         return False
@@ -1080,9 +1100,12 @@ class C06(Prop):
     def _check_graph(self, case: dict[str, Any], res: Result) -> None:
         n, edges, variant, start = case["n"], case["edges"], case["variant"], case["start"]
         self.extra["graphs"] += 1
-        templates = graph_templates(n, edges, variant)
+        wrap = int(case.get("wrap") or 0)
+        templates = graph_templates(n, edges, variant, wrap)
         cyc = shortest_cycle(n, edges, start)
         shape = f"{variant}:{'acyclic' if not cyc else ('self-loop' if cyc == 1 else f'{cyc}-cycle')}"
+        if wrap:
+            shape += ":wrapped"
         res.labels.append("graph:" + shape)
         res.nontrivial = cyc > 0
         ctxt = f"templates={templates!r} start=t{start}"
